@@ -1,15 +1,637 @@
 import CuqiVerif.Model.C08
 import Mathlib.Tactic.Ring
+import Mathlib.Tactic.Linarith
+import Mathlib.Tactic.FieldSimp
+import Mathlib.Tactic.Positivity
+import Mathlib.Algebra.Order.Field.Basic
+import Mathlib.Data.List.Basic
+import Mathlib.MeasureTheory.Measure.Prod
+import Mathlib.MeasureTheory.Group.Measure
+import Mathlib.MeasureTheory.Constructions.Pi
+import Mathlib.MeasureTheory.Measure.Lebesgue.Basic
+
+/-!
+# C08 — property theorems about the NUTS model (`Model/C08.lean`)
+
+* the integrator (`leapfrog`, the code's `_Leapfrog`) is time-reversible, for any gradient function,
+  any field, any dimension;
+* the tree recursion (`buildTree`, the code's `_BuildTree`), for every depth, every phase-space
+  type and every script of uniform draws:
+  visited leaves are consecutive leapfrog iterates, `n'` counts exactly the visited in-slice leaves,
+  a candidate returned with `n' > 0` is a visited in-slice leaf, nothing is built after a sub-tree
+  reports `s' = 0`, and the law of the returned candidate under uniform draws is uniform over the
+  visited in-slice leaves;
+* the doubling loop keeps caches coherent and (experimental interface) never moves to a
+  non-finite point.
+-/
 
 namespace CuqiVerif.C08
 
-/-- placeholder while the theorems are being developed -/
-theorem takeSecond_zero_left (u : Rat) (n2 : Nat) (h : u ≤ 1) (hn : 0 < n2) : takeSecond u 0 n2 = true := by
-  unfold takeSecond
-  simp only [Nat.zero_add, decide_eq_true_eq]
-  have : max 1 n2 = n2 := by omega
-  rw [this]
-  have h2 : (0:Rat) < (n2 : Rat) := by exact_mod_cast hn
-  nlinarith
+/-! ## the integrator -/
+section Leapfrog
+variable {K : Type} [Field K]
 
+lemma vadd_length (a b : List K) (h : b.length = a.length) : (vadd a b).length = a.length := by
+  simp [vadd, h]
+
+lemma vsmul_length (c : K) (a : List K) : (vsmul c a).length = a.length := by simp [vsmul]
+
+lemma vadd_vsmul_cancel (a b : List K) (c : K) (h : b.length = a.length) :
+    vadd (vadd a (vsmul c b)) (vsmul (-c) b) = a := by
+  apply List.ext_getElem
+  · simp [vadd, vsmul, h]
+  · intro i h1 h2
+    simp [vadd, vsmul]
+
+/-- **Time reversibility of `_Leapfrog`.**  One step of size `e` followed by one step of size `-e`
+    (threading the cached gradient as the code does) returns to the starting position, momentum and
+    gradient, for every gradient function `g`, every field, every dimension. -/
+theorem leapfrog_reversible (g : List K → List K) (e : K) (x r : List K)
+    (hr : r.length = x.length) (hg : ∀ y, y.length = x.length → (g y).length = x.length) :
+    let s1 := leapfrog (1/2 : K) g e x r (g x)
+    leapfrog (1/2 : K) g (-e) s1.1 s1.2.1 s1.2.2 = (x, r, g x) := by
+  intro s1
+  have hgx : (g x).length = x.length := hg x rfl
+  -- names for the intermediate quantities of the forward step
+  set r1 := vadd r (vsmul (1/2 * e) (g x)) with hr1
+  set x1 := vadd x (vsmul e r1) with hx1
+  set r2 := vadd r1 (vsmul (1/2 * e) (g x1)) with hr2
+  have lr1 : r1.length = x.length := by
+    rw [hr1, vadd_length _ _ (by rw [vsmul_length, hgx, hr]), hr]
+  have lx1 : x1.length = x.length := by
+    rw [hx1, vadd_length _ _ (by rw [vsmul_length, lr1])]
+  have lgx1 : (g x1).length = x.length := hg x1 lx1
+  have hs1 : s1 = (x1, r2, g x1) := rfl
+  rw [hs1]
+  show leapfrog (1/2 : K) g (-e) x1 r2 (g x1) = (x, r, g x)
+  unfold leapfrog
+  have e1 : (1/2 : K) * -e = -(1/2 * e) := by ring
+  have back1 : vadd r2 (vsmul (1/2 * -e) (g x1)) = r1 := by
+    rw [e1, hr2]; exact vadd_vsmul_cancel r1 (g x1) (1/2 * e) (by rw [lgx1, lr1])
+  have back2 : vadd x1 (vsmul (-e) r1) = x := by
+    rw [hx1]; exact vadd_vsmul_cancel x r1 e lr1
+  have back3 : vadd r1 (vsmul (1/2 * -e) (g x)) = r := by
+    rw [e1, hr1]; exact vadd_vsmul_cancel r (g x) (1/2 * e) (by rw [hgx, hr])
+  simp only [back1, back2, back3]
+
+example : leapfrog (1/2 : ℚ) (fun x => x.map (fun t => -2 * t)) (-1/4)
+    (leapfrog (1/2 : ℚ) (fun x => x.map (fun t => -2 * t)) (1/4) [1, 2] [1/2, -1] [-2, -4]).1
+    (leapfrog (1/2 : ℚ) (fun x => x.map (fun t => -2 * t)) (1/4) [1, 2] [1/2, -1] [-2, -4]).2.1
+    (leapfrog (1/2 : ℚ) (fun x => x.map (fun t => -2 * t)) (1/4) [1, 2] [1/2, -1] [-2, -4]).2.2
+    = ([1, 2], [1/2, -1], [-2, -4]) := by decide +kernel
+
+end Leapfrog
+
+/-! ## the tree recursion -/
+section Tree
+variable {Z : Type}
+
+/-- the `k` consecutive leapfrog iterates after `z` in direction `v` -/
+def orbit (c : Ctx Z) (v : Int) : Z → Nat → List Z
+  | _, 0 => []
+  | z, k + 1 => c.step v z :: orbit c v (c.step v z) k
+
+lemma orbit_length (c : Ctx Z) (v : Int) (z : Z) (k : Nat) : (orbit c v z k).length = k := by
+  induction k generalizing z with
+  | zero => rfl
+  | succ k ih => simp [orbit, ih]
+
+lemma orbit_ne_nil (c : Ctx Z) (v : Int) (z : Z) (k : Nat) (hk : 0 < k) : orbit c v z k ≠ [] := by
+  intro h; have := congrArg List.length h; rw [orbit_length] at this; simp at this; omega
+
+lemma orbit_append (c : Ctx Z) (v : Int) (z : Z) (a b : Nat) (ha : 0 < a) :
+    orbit c v z (a + b) = orbit c v z a ++ orbit c v ((orbit c v z a).getLast?.getD z) b := by
+  induction a generalizing z with
+  | zero => omega
+  | succ a ih =>
+    rcases Nat.eq_zero_or_pos a with h0 | hpos
+    · subst h0
+      rw [Nat.add_comm]; simp [orbit]
+    · have := ih (c.step v z) hpos
+      rw [show a + 1 + b = (a + b) + 1 by omega]
+      simp only [orbit, List.cons_append]
+      rw [this]
+      congr 2
+      have hne := orbit_ne_nil c v (c.step v z) a hpos
+      rw [List.getLast?_cons_of_ne_nil hne]
+      cases hl : (orbit c v (c.step v z) a).getLast? with
+      | none => exact absurd (List.getLast?_eq_none_iff.mp hl) hne
+      | some y => simp
+
+/-- the end of the tree that the next sub-tree continues from -/
+def Tree.far (t : Tree Z) (v : Int) : Z := if v = -1 then t.zminus else t.zplus
+
+/-- structural invariant proved by induction on the depth -/
+structure TreeInv (c : Ctx Z) (v : Int) (j : Nat) (z : Z) (t : Tree Z) : Prop where
+  leaves_orbit : t.leaves = orbit c v z t.leaves.length
+  len_pos : 0 < t.leaves.length
+  len_le : t.leaves.length ≤ 2 ^ j
+  len_full : t.s = true → t.leaves.length = 2 ^ j
+  far_last : t.leaves.getLast? = some (t.far v)
+  count : t.n = (t.leaves.filter (inSlice c)).length
+  wts_len : t.wts.length = t.leaves.length
+
+theorem buildTree_inv (c : Ctx Z) (v : Int) (j : Nat) (z : Z) (us : List Rat) :
+    TreeInv c v j z (buildTree c v j z us).1 := by
+  induction j generalizing z us with
+  | zero =>
+    simp only [buildTree]
+    constructor <;> simp [orbit, Tree.far]
+    split <;> simp_all
+  | succ j ih =>
+    simp only [buildTree]
+    have I1 := ih z us
+    generalize hb1 : buildTree c v j z us = b1 at I1 ⊢
+    obtain ⟨t1, us1⟩ := b1
+    simp only at I1 ⊢
+    by_cases hs : t1.s = true
+    · simp only [hs, if_true]
+      have I2 := ih (if v = -1 then t1.zminus else t1.zplus) us1
+      generalize hb2 : buildTree c v j (if v = -1 then t1.zminus else t1.zplus) us1 = b2 at I2 ⊢
+      obtain ⟨t2, us2⟩ := b2
+      simp only at I2 ⊢
+      have hfull := I1.len_full hs
+      have hstart : (if v = -1 then t1.zminus else t1.zplus) = t1.far v := rfl
+      constructor
+      · -- leaves are the orbit
+        simp only [List.length_append]
+        rw [orbit_append c v z _ _ I1.len_pos, ← I1.leaves_orbit, I1.far_last]
+        simp only [Option.getD_some]
+        rw [← hstart, ← I2.leaves_orbit]
+      · simp only [List.length_append]; have := I1.len_pos; omega
+      · simp only [List.length_append]; have := I2.len_le; rw [hfull]; rw [pow_succ]; omega
+      · intro hS
+        simp only [Bool.and_eq_true] at hS
+        simp only [List.length_append]
+        rw [hfull, I2.len_full hS.1, pow_succ]; omega
+      · have hne : t2.leaves ≠ [] := by
+          intro h; have := I2.len_pos; rw [h] at this; simp at this
+        rw [List.getLast?_append_of_ne_nil _ hne, I2.far_last]
+        simp only [Tree.far]
+        split <;> rfl
+      · simp only [List.filter_append, List.length_append, I1.count, I2.count]
+      · simp only [List.length_append, List.length_map, I1.wts_len, I2.wts_len]
+    · simp only [hs]
+      have hsf : t1.s = false := by simpa using hs
+      constructor
+      · exact I1.leaves_orbit
+      · exact I1.len_pos
+      · exact le_trans I1.len_le (Nat.pow_le_pow_right (by omega) (by omega))
+      · intro h; simp [hsf] at h
+      · exact I1.far_last
+      · exact I1.count
+      · exact I1.wts_len
+
+/-- **Visited leaves are consecutive leapfrog iterates** `step z, step² z, …`, at most `2^j` of them,
+    exactly `2^j` when the tree reports `s' = 1`. -/
+theorem leaves_are_orbit (c : Ctx Z) (v : Int) (j : Nat) (z : Z) (us : List Rat) :
+    let t := (buildTree c v j z us).1
+    t.leaves = orbit c v z t.leaves.length ∧ t.leaves.length ≤ 2 ^ j ∧
+      (t.s = true → t.leaves.length = 2 ^ j) :=
+  let I := buildTree_inv c v j z us
+  ⟨I.leaves_orbit, I.len_le, I.len_full⟩
+
+/-- **`n'` is exactly the number of visited leaves that lie in the slice.** -/
+theorem count_eq_slice (c : Ctx Z) (v : Int) (j : Nat) (z : Z) (us : List Rat) :
+    (buildTree c v j z us).1.n = ((buildTree c v j z us).1.leaves.filter (inSlice c)).length :=
+  (buildTree_inv c v j z us).count
+
+/-- **Trajectory stops at the first divergence / U-turn:** when the first half of a tree reports
+    `s' = 0` the second half is not built: the result *is* the first half (one more node counted). -/
+theorem stop_at_first (c : Ctx Z) (v : Int) (j : Nat) (z : Z) (us : List Rat)
+    (h : (buildTree c v j z us).1.s = false) :
+    (buildTree c v (j + 1) z us).1.leaves = (buildTree c v j z us).1.leaves ∧
+    (buildTree c v (j + 1) z us).1.s = false ∧
+    (buildTree c v (j + 1) z us).1.nodes = 1 + (buildTree c v j z us).1.nodes ∧
+    (buildTree c v (j + 1) z us).2 = (buildTree c v j z us).2 := by
+  simp only [buildTree]
+  generalize buildTree c v j z us = b1 at h ⊢
+  obtain ⟨t1, us1⟩ := b1
+  simp only at h
+  simp [h]
+
+/-- a leaf with non-finite Hamiltonian (NaN / -inf log-density) is never in the slice and stops the tree -/
+theorem nonfinite_leaf_outside (c : Ctx Z) (z : Z) (h : c.ham z = none) :
+    inSlice c z = false ∧ notDiverged c z = false := by
+  simp [inSlice, notDiverged, h]
+
+/-- draws left over by `buildTree` are a suffix of the draws given -/
+lemma buildTree_suffix (c : Ctx Z) (v : Int) (j : Nat) (z : Z) (us : List Rat) :
+    (buildTree c v j z us).2 <:+ us := by
+  induction j generalizing z us with
+  | zero => simp [buildTree]
+  | succ j ih =>
+    simp only [buildTree]
+    have h1 := ih z us
+    generalize buildTree c v j z us = b1 at h1 ⊢
+    obtain ⟨t1, us1⟩ := b1
+    by_cases hs : t1.s = true
+    · simp only [hs, if_true]
+      have h2 := ih (if v = -1 then t1.zminus else t1.zplus) us1
+      generalize buildTree c v j (if v = -1 then t1.zminus else t1.zplus) us1 = b2 at h2 ⊢
+      obtain ⟨t2, us2⟩ := b2
+      simp only at h1 h2 ⊢
+      have h3 : (popU us2).2 <:+ us2 := by
+        cases us2 with
+        | nil => simp [popU]
+        | cons a l => simp [popU]
+      exact (h3.trans h2).trans h1
+    · simp only [hs]; exact h1
+
+lemma popU_mem (us : List Rat) (P : Rat → Prop) (hhalf : P (1/2)) (h : ∀ u ∈ us, P u) :
+    P (popU us).1 := by
+  cases us with
+  | nil => simpa [popU] using hhalf
+  | cons a l => simpa [popU] using h a (by simp)
+
+/-- `rand() <= n2/max(1,n1+n2)` written without division -/
+theorem takeSecond_iff (u : Rat) (n1 n2 : Nat) :
+    takeSecond u n1 n2 = true ↔ u ≤ secondProb n1 n2 := by
+  unfold takeSecond secondProb
+  have hpos : (0 : Rat) < ((max 1 (n1 + n2) : Nat) : Rat) := by
+    have : 0 < max 1 (n1 + n2) := by omega
+    exact_mod_cast this
+  rw [decide_eq_true_iff, le_div_iff₀ hpos]
+
+/-- **Every candidate returned with `n' > 0` is a visited leaf lying in the slice**, for every
+    depth and every script of uniform draws in `(0, 1]`.  (`np.random.rand()` is in `[0,1)`; the
+    excluded draw `u = 0` is the subject of `selected_outside_slice_at_u0` below.) -/
+theorem selected_in_slice (c : Ctx Z) (v : Int) (j : Nat) (z : Z) (us : List Rat)
+    (hus : ∀ u ∈ us, 0 < u ∧ u ≤ 1) (hn : 0 < (buildTree c v j z us).1.n) :
+    (buildTree c v j z us).1.cand ∈ (buildTree c v j z us).1.leaves ∧
+      inSlice c (buildTree c v j z us).1.cand = true := by
+  induction j generalizing z us with
+  | zero =>
+    simp only [buildTree] at hn ⊢
+    constructor
+    · simp
+    · by_contra hc
+      simp [hc] at hn
+  | succ j ih =>
+    simp only [buildTree] at hn ⊢
+    have I1 := ih z us hus
+    have S1 := buildTree_suffix c v j z us
+    generalize buildTree c v j z us = b1 at I1 S1 hn ⊢
+    obtain ⟨t1, us1⟩ := b1
+    simp only at I1 S1 hn ⊢
+    have hus1 : ∀ u ∈ us1, 0 < u ∧ u ≤ 1 := fun u hu => hus u (S1.subset hu)
+    by_cases hs : t1.s = true
+    · simp only [hs, if_true] at hn ⊢
+      have I2 := ih (if v = -1 then t1.zminus else t1.zplus) us1 hus1
+      have S2 := buildTree_suffix c v j (if v = -1 then t1.zminus else t1.zplus) us1
+      generalize buildTree c v j (if v = -1 then t1.zminus else t1.zplus) us1 = b2 at I2 S2 hn ⊢
+      obtain ⟨t2, us2⟩ := b2
+      simp only at I2 S2 hn ⊢
+      have hus2 : ∀ u ∈ us2, 0 < u ∧ u ≤ 1 := fun u hu => hus1 u (S2.subset hu)
+      have hu := popU_mem us2 (fun u => 0 < u ∧ u ≤ 1) (by norm_num) hus2
+      by_cases hts : takeSecond (popU us2).1 t1.n t2.n = true
+      · simp only [hts, if_true]
+        -- second taken: n2 must be positive because u > 0
+        have hn2 : 0 < t2.n := by
+          by_contra h0
+          have h0' : t2.n = 0 := by omega
+          rw [takeSecond_iff, secondProb, h0'] at hts
+          simp at hts
+          linarith [hu.1]
+        obtain ⟨m, s⟩ := I2 hn2
+        exact ⟨List.mem_append_right _ m, s⟩
+      · simp only [hts]
+        have hn1 : 0 < t1.n := by
+          by_contra h0
+          have h0' : t1.n = 0 := by omega
+          apply hts
+          rw [takeSecond_iff, secondProb, h0']
+          have hn2 : 0 < t2.n := by omega
+          have : max 1 (0 + t2.n) = t2.n := by omega
+          rw [this]
+          have hp : (0:Rat) < (t2.n : Rat) := by exact_mod_cast hn2
+          rw [div_self (ne_of_gt hp)]
+          exact hu.2
+        obtain ⟨m, s⟩ := I1 hn1
+        simp only [Bool.false_eq_true, if_false]
+        exact ⟨List.mem_append_left _ m, s⟩
+    · simp only [hs] at hn ⊢
+      exact I1 hn
+
+/-- **Code-faithful negative result.**  With the draw `u = 0` (possible: `rand()` is half-open)
+    the test `rand() <= n2/max(1,n1+n2)` passes even when `n2 = 0`, so a sub-tree candidate outside
+    the slice replaces an in-slice one.  Concrete depth-1 witness on `Z = ℕ`. -/
+theorem selected_outside_slice_at_u0 :
+    let c : Ctx Nat := { step := fun _ z => z + 1, ham := fun z => if z = 1 then some 0 else some (-5),
+                         noUturn := fun _ _ => true, logu := -1, ham0 := 0 }
+    let t := (buildTree c 1 1 0 [0]).1
+    t.n = 1 ∧ t.cand = 2 ∧ inSlice c t.cand = false := by
+  decide +kernel
+
+/-! ### the law of the returned candidate -/
+
+lemma sum_map_mul (a : Rat) (l : List Rat) : (l.map (a * ·)).sum = a * l.sum := by
+  induction l with
+  | nil => simp
+  | cons x xs ih => simp [ih, mul_add]
+
+/-- the candidate law sums to one -/
+theorem wts_sum_one (c : Ctx Z) (v : Int) (j : Nat) (z : Z) (us : List Rat) :
+    (buildTree c v j z us).1.wts.sum = 1 := by
+  induction j generalizing z us with
+  | zero => simp [buildTree]
+  | succ j ih =>
+    simp only [buildTree]
+    have h1 := ih z us
+    generalize buildTree c v j z us = b1 at h1 ⊢
+    obtain ⟨t1, us1⟩ := b1
+    by_cases hs : t1.s = true
+    · simp only [hs, if_true]
+      have h2 := ih (if v = -1 then t1.zminus else t1.zplus) us1
+      generalize buildTree c v j (if v = -1 then t1.zminus else t1.zplus) us1 = b2 at h2 ⊢
+      obtain ⟨t2, us2⟩ := b2
+      simp only at h1 h2 ⊢
+      rw [List.sum_append, sum_map_mul, sum_map_mul, h1, h2]; ring
+    · simp only [hs]; exact h1
+
+/-- pointwise description of a list of weights against a list of leaves -/
+def UniformOn (c : Ctx Z) (leaves : List Z) (wts : List Rat) (n : Nat) : Prop :=
+  List.Forall₂ (fun z w => w = if inSlice c z then 1 / (n : Rat) else 0) leaves wts
+
+lemma uniformOn_scale (c : Ctx Z) (leaves : List Z) (wts : List Rat) (n m : Nat) (a : Rat)
+    (h : UniformOn c leaves wts n) (ha : ∀ z ∈ leaves, inSlice c z = true → a * (1 / (n : Rat)) = 1 / (m : Rat)) :
+    UniformOn c leaves (wts.map (a * ·)) m := by
+  unfold UniformOn at *
+  induction h with
+  | nil => simp
+  | @cons z w zs ws hw _ ih =>
+    simp only [List.map_cons]
+    refine List.Forall₂.cons ?_ (ih (fun z hz => ha z (List.mem_cons_of_mem _ hz)))
+    subst hw
+    by_cases hz : inSlice c z = true
+    · simp only [hz, if_true]; exact ha z (by simp) hz
+    · simp [hz]
+
+lemma uniformOn_zero (c : Ctx Z) (m : Nat) : ∀ (ls : List Z) (ws : List Rat), ws.length = ls.length →
+    (∀ z ∈ ls, inSlice c z = false) → UniformOn c ls (ws.map ((0:Rat) * ·)) m := by
+  intro ls
+  induction ls with
+  | nil => intro ws h _; cases ws <;> simp_all [UniformOn]
+  | cons a l ihl =>
+    intro ws h hall
+    cases ws with
+    | nil => simp at h
+    | cons w ws =>
+      simp only [List.map_cons]
+      refine List.Forall₂.cons ?_ (ihl ws (by simpa using h) (fun z hz => hall z (List.mem_cons_of_mem _ hz)))
+      simp [hall a (by simp)]
+
+lemma no_slice_of_count_zero (c : Ctx Z) (ls : List Z) (h : (ls.filter (inSlice c)).length = 0) :
+    ∀ z ∈ ls, inSlice c z = false := by
+  intro z hz
+  by_contra hc
+  have hc' : inSlice c z = true := by simpa using hc
+  have hm : z ∈ ls.filter (inSlice c) := by simp [hz, hc']
+  have := List.length_pos_of_mem hm
+  omega
+
+/-- **Progressive sub-sampling is uniform.**  Under independent uniform draws the candidate
+    returned by a tree is distributed over the visited leaves with weight `1/n'` on every in-slice
+    leaf and `0` on every other leaf (whenever `n' > 0`), for every depth — also for trees cut short
+    by an early stop. -/
+theorem progressive_uniform (c : Ctx Z) (v : Int) (j : Nat) (z : Z) (us : List Rat)
+    (hn : 0 < (buildTree c v j z us).1.n) :
+    UniformOn c (buildTree c v j z us).1.leaves (buildTree c v j z us).1.wts (buildTree c v j z us).1.n := by
+  induction j generalizing z us with
+  | zero =>
+    simp only [buildTree] at hn ⊢
+    unfold UniformOn
+    refine List.Forall₂.cons ?_ List.Forall₂.nil
+    by_cases hz : inSlice c (c.step v z) = true
+    · simp [hz]
+    · simp [hz] at hn
+  | succ j ih =>
+    simp only [buildTree] at hn ⊢
+    have I1 := ih z us
+    have V1 := buildTree_inv c v j z us
+    generalize buildTree c v j z us = b1 at I1 V1 hn ⊢
+    obtain ⟨t1, us1⟩ := b1
+    simp only at I1 V1 hn ⊢
+    by_cases hs : t1.s = true
+    · simp only [hs, if_true] at hn ⊢
+      have I2 := ih (if v = -1 then t1.zminus else t1.zplus) us1
+      have V2 := buildTree_inv c v j (if v = -1 then t1.zminus else t1.zplus) us1
+      generalize buildTree c v j (if v = -1 then t1.zminus else t1.zplus) us1 = b2 at I2 V2 hn ⊢
+      obtain ⟨t2, us2⟩ := b2
+      simp only at I2 V2 hn ⊢
+      have hmax : ((max 1 (t1.n + t2.n) : Nat) : Rat) = (t1.n : Rat) + (t2.n : Rat) := by
+        have : max 1 (t1.n + t2.n) = t1.n + t2.n := by omega
+        rw [this]; push_cast; ring
+      have hsum : (0 : Rat) < (t1.n : Rat) + (t2.n : Rat) := by exact_mod_cast hn
+      unfold UniformOn
+      apply List.rel_append
+      · -- first half, scaled by 1 - a
+        by_cases h1 : 0 < t1.n
+        · apply uniformOn_scale c _ _ t1.n _ _ (I1 h1)
+          intro _ _ _
+          have hp : (0:Rat) < (t1.n : Rat) := by exact_mod_cast h1
+          unfold secondProb; rw [hmax]; push_cast
+          field_simp
+          ring
+        · have h0 : t1.n = 0 := by omega
+          have ha : (1 - secondProb t1.n t2.n) = 0 := by
+            unfold secondProb; rw [hmax, h0]; push_cast
+            have hp : (t2.n : Rat) ≠ 0 := by
+              have : 0 < t2.n := by omega
+              exact_mod_cast (ne_of_gt this)
+            field_simp; ring
+          rw [ha]
+          exact uniformOn_zero c _ _ _ V1.wts_len (no_slice_of_count_zero c _ (by rw [← V1.count, h0]))
+      · -- second half, scaled by a
+        by_cases h2 : 0 < t2.n
+        · apply uniformOn_scale c _ _ t2.n _ _ (I2 h2)
+          intro _ _ _
+          have hp : (0:Rat) < (t2.n : Rat) := by exact_mod_cast h2
+          unfold secondProb; rw [hmax]; push_cast
+          field_simp
+        · have h0 : t2.n = 0 := by omega
+          have ha : secondProb t1.n t2.n = 0 := by
+            unfold secondProb; rw [h0]; simp
+          rw [ha]
+          exact uniformOn_zero c _ _ _ V2.wts_len (no_slice_of_count_zero c _ (by rw [← V2.count, h0]))
+    · simp only [hs] at hn ⊢
+      exact I1 hn
+
+
+/-! ### candidates are visited leaves; the doubling loop -/
+
+theorem cand_mem_leaves (c : Ctx Z) (v : Int) (j : Nat) (z : Z) (us : List Rat) :
+    (buildTree c v j z us).1.cand ∈ (buildTree c v j z us).1.leaves := by
+  induction j generalizing z us with
+  | zero => simp [buildTree]
+  | succ j ih =>
+    simp only [buildTree]
+    have h1 := ih z us
+    generalize buildTree c v j z us = b1 at h1 ⊢
+    obtain ⟨t1, us1⟩ := b1
+    by_cases hs : t1.s = true
+    · simp only [hs, if_true]
+      have h2 := ih (if v = -1 then t1.zminus else t1.zplus) us1
+      generalize buildTree c v j (if v = -1 then t1.zminus else t1.zplus) us1 = b2 at h2 ⊢
+      obtain ⟨t2, us2⟩ := b2
+      simp only at h1 h2 ⊢
+      split
+      · exact List.mem_append_right _ h2
+      · exact List.mem_append_left _ h1
+    · simp only [hs]; exact h1
+
+lemma orbit_forall (c : Ctx Z) (P : Z → Prop) (hstep : ∀ v z, P (c.step v z)) (v : Int) (k : Nat) :
+    ∀ (z : Z), ∀ y ∈ orbit c v z k, P y := by
+  induction k with
+  | zero => intro z y hy; simp [orbit] at hy
+  | succ k ih =>
+    intro z y hy
+    simp only [orbit, List.mem_cons] at hy
+    rcases hy with rfl | hy
+    · exact hstep v z
+    · exact ih (c.step v z) y hy
+
+/-- every visited leaf is the image of a leapfrog step, hence inherits any property of step outputs -/
+theorem leaves_forall (c : Ctx Z) (P : Z → Prop) (hstep : ∀ v z, P (c.step v z))
+    (v : Int) (j : Nat) (z : Z) (us : List Rat) :
+    ∀ y ∈ (buildTree c v j z us).1.leaves, P y := by
+  have I := buildTree_inv c v j z us
+  intro y hy
+  rw [I.leaves_orbit] at hy
+  exact orbit_forall c P hstep v _ z y hy
+
+/-- **The state after a transition is the start or a visited leaf**, and it is only replaced by a
+    candidate that passes the interface's finiteness guard. -/
+theorem loop_cur_inv (c : Ctx Z) (guard : Z → Bool) (P : Z → Prop) (hstep : ∀ v z, P (c.step v z))
+    (md fuel : Nat) (st : Loop Z) (h0 : P st.cur ∧ guard st.cur = true) :
+    P (loop c guard md fuel st).cur ∧ guard (loop c guard md fuel st).cur = true := by
+  induction fuel generalizing st with
+  | zero => simpa [loop] using h0
+  | succ fuel ih =>
+    simp only [loop]
+    split
+    · apply ih
+      simp only [loopBody]
+      generalize hb : buildTree c (if (popU st.us).1 < 1 / 2 then 1 else -1) st.j
+        (if (if (popU st.us).1 < 1 / 2 then (1:Int) else -1) = -1 then st.zminus else st.zplus) (popU st.us).2 = b
+      obtain ⟨t, us1⟩ := b
+      have hc : P t.cand := by
+        have hm := cand_mem_leaves c (if (popU st.us).1 < 1 / 2 then 1 else -1) st.j
+          (if (if (popU st.us).1 < 1 / 2 then (1:Int) else -1) = -1 then st.zminus else st.zplus) (popU st.us).2
+        have := leaves_forall c P hstep _ _ _ _ _ hm
+        rw [hb] at this; exact this
+      simp only
+      by_cases hts : t.s = true
+      · simp only [hts, if_true]
+        by_cases hacc : (decide ((popU us1).1 * (st.n : Rat) ≤ (t.n : Rat)) && decide ((popU us1).1 ≤ 1) && guard t.cand) = true
+        · simp only [hacc, if_true]
+          simp only [Bool.and_eq_true] at hacc
+          exact ⟨hc, hacc.2⟩
+        · simp only [hacc]; exact h0
+      · simp only [hts]; exact h0
+    · exact h0
+
+/-- **Experimental interface: a transition never moves to a non-finite point**, whatever the draws
+    (including `u = 0`), and the cached log-density/gradient always belong to the current point. -/
+theorem nutsStep_coherent_finite (t : Target) (eps logu ham0 : Rat) (md : Nat) (z0 : PS) (us : List Rat)
+    (h0 : z0.logd = t.logd z0.x ∧ z0.grad = t.grad z0.x) (hfin : z0.logd.isSome = true) :
+    let z := (nutsStep (psCtx t eps logu ham0) (fun z => z.logd.isSome) md z0 us).cur
+    (z.logd = t.logd z.x ∧ z.grad = t.grad z.x) ∧ z.logd.isSome = true := by
+  intro z
+  exact loop_cur_inv (psCtx t eps logu ham0) (fun z => z.logd.isSome)
+    (fun z => z.logd = t.logd z.x ∧ z.grad = t.grad z.x)
+    (fun v z => by simp [psCtx, psStep, leapfrog]) md (md + 1) _ ⟨h0, hfin⟩
+
+/-- legacy interface (no guard): coherence of the returned point still holds -/
+theorem nutsStep_coherent_legacy (t : Target) (eps logu ham0 : Rat) (md : Nat) (z0 : PS) (us : List Rat)
+    (h0 : z0.logd = t.logd z0.x ∧ z0.grad = t.grad z0.x) :
+    let z := (nutsStep (psCtx t eps logu ham0) (fun _ => true) md z0 us).cur
+    z.logd = t.logd z.x ∧ z.grad = t.grad z.x := by
+  intro z
+  exact (loop_cur_inv (psCtx t eps logu ham0) (fun _ => true)
+    (fun z => z.logd = t.logd z.x ∧ z.grad = t.grad z.x)
+    (fun v z => by simp [psCtx, psStep, leapfrog]) md (md + 1) _ ⟨h0, rfl⟩).1
+
+/-! ### the top-level move between the old and the new half of the trajectory -/
+
+/-- **Symmetry of the top-level move.**  With `a` in-slice points in the old half and `b` in the new
+    half, the code moves from a point of the old half to a *given* point of the new half with
+    probability `min(1, b/a) · (1/b)` (`progressive_uniform` for the `1/b`).  This equals
+    `min(1/a, 1/b)`, which is symmetric in `(a, b)`: the move is reversible with respect to the
+    uniform distribution on the union. -/
+theorem swap_symmetric (a b : ℚ) (ha : 0 < a) (hb : 0 < b) :
+    min 1 (b / a) * (1 / b) = min 1 (a / b) * (1 / a) := by
+  rcases le_total a b with h | h
+  · have h1 : 1 ≤ b / a := by rw [le_div_iff₀ ha]; linarith
+    have h2 : a / b ≤ 1 := by rw [div_le_iff₀ hb]; linarith
+    rw [min_eq_left h1, min_eq_right h2]; field_simp
+  · have h1 : b / a ≤ 1 := by rw [div_le_iff₀ ha]; linarith
+    have h2 : 1 ≤ a / b := by rw [le_div_iff₀ hb]; linarith
+    rw [min_eq_right h1, min_eq_left h2]; field_simp
+
+end Tree
+
+/-! ## the integrator on ℝⁿ × ℝⁿ: volume preservation -/
+section Volume
+open MeasureTheory
+
+variable {ι : Type*} [Fintype ι]
+
+/-- a shear `(x, r) ↦ (x, r + h x)` preserves Lebesgue measure on phase space -/
+theorem shear_snd_measurePreserving (h : (ι → ℝ) → (ι → ℝ)) (hm : Measurable h) :
+    MeasurePreserving (fun p : (ι → ℝ) × (ι → ℝ) => (p.1, p.2 + h p.1))
+      ((volume : Measure (ι → ℝ)).prod volume) ((volume : Measure (ι → ℝ)).prod volume) := by
+  have := MeasurePreserving.skew_product (μa := (volume : Measure (ι → ℝ))) (μb := volume)
+    (μc := (volume : Measure (ι → ℝ))) (μd := volume) (f := id) (MeasurePreserving.id _)
+    (g := fun x r => r + h x) (by
+      apply Measurable.add measurable_snd (hm.comp measurable_fst)) (by
+      refine Filter.Eventually.of_forall (fun x => ?_)
+      exact (measurePreserving_add_right volume (h x)).map_eq)
+  simpa using this
+
+/-- a shear `(x, r) ↦ (x + k r, r)` preserves Lebesgue measure on phase space -/
+theorem shear_fst_measurePreserving (k : (ι → ℝ) → (ι → ℝ)) (hm : Measurable k) :
+    MeasurePreserving (fun p : (ι → ℝ) × (ι → ℝ) => (p.1 + k p.2, p.2))
+      ((volume : Measure (ι → ℝ)).prod volume) ((volume : Measure (ι → ℝ)).prod volume) := by
+  have h1 := shear_snd_measurePreserving k hm
+  have hs : MeasurePreserving (Prod.swap : (ι → ℝ) × (ι → ℝ) → _)
+      ((volume : Measure (ι → ℝ)).prod volume) ((volume : Measure (ι → ℝ)).prod volume) :=
+    Measure.measurePreserving_swap
+  have := (hs.comp h1).comp hs
+  convert this using 1
+  funext p
+  simp [Function.comp, Prod.swap]
+
+/-- the leapfrog map on `ℝⁿ × ℝⁿ` written with real-valued functions (same formula as `leapfrog`) -/
+noncomputable def leapfrogFn (g : (ι → ℝ) → (ι → ℝ)) (e : ℝ) (p : (ι → ℝ) × (ι → ℝ)) : (ι → ℝ) × (ι → ℝ) :=
+  let r1 := p.2 + (1/2 * e) • g p.1
+  let x1 := p.1 + e • r1
+  (x1, r1 + (1/2 * e) • g x1)
+
+/-- **Volume preservation of the leapfrog integrator**: for every measurable gradient field and
+    every step size the map preserves Lebesgue measure on phase space (composition of three shears). -/
+theorem leapfrog_volume (g : (ι → ℝ) → (ι → ℝ)) (hg : Measurable g) (e : ℝ) :
+    MeasurePreserving (leapfrogFn g e)
+      ((volume : Measure (ι → ℝ)).prod volume) ((volume : Measure (ι → ℝ)).prod volume) := by
+  have s1 := shear_snd_measurePreserving (fun x => (1/2 * e) • g x) (by measurability)
+  have s2 := shear_fst_measurePreserving (fun r : ι → ℝ => e • r) (by measurability)
+  have := (s1.comp s2).comp s1
+  convert this using 1
+  funext p
+  simp [leapfrogFn, Function.comp]
+
+/-- time reversibility in the real-valued form: a step of size `-e` undoes a step of size `e` -/
+theorem leapfrogFn_reversible (g : (ι → ℝ) → (ι → ℝ)) (e : ℝ) (p : (ι → ℝ) × (ι → ℝ)) :
+    leapfrogFn g (-e) (leapfrogFn g e p) = p := by
+  obtain ⟨x, r⟩ := p
+  simp only [leapfrogFn]
+  have hx : x + e • (r + (1 / 2 * e) • g x) +
+      -e • (r + (1 / 2 * e) • g x + (1 / 2 * e) • g (x + e • (r + (1 / 2 * e) • g x)) +
+        (1 / 2 * -e) • g (x + e • (r + (1 / 2 * e) • g x))) = x := by
+    funext i; simp only [Pi.add_apply, Pi.smul_apply, smul_eq_mul]; ring
+  rw [hx]
+  congr 1
+  funext i; simp only [Pi.add_apply, Pi.smul_apply, smul_eq_mul]; ring
+
+end Volume
 end CuqiVerif.C08
